@@ -11,7 +11,7 @@ UNITS = ["lib/hashtable.c", "lib/skiplist.c", "lib/trie.c"]
 
 def obligations(tier):
     obs = []
-    nops = 3 if tier == "quick" else 4
+    nops = 2 if tier == "quick" else 3
     nalpha = 12
     for impl in range(3):
         for first in range(nalpha):
@@ -23,7 +23,20 @@ def obligations(tier):
                unwind=9, n_entries=nalpha ** (nops - 1),
                unwindset={"run_scenario": 5, "new_child_node": 33, "trie_node_split": 33, "trie_node_next": 33, "trie_node_release": 33},
                timeout=120, mem_gb=6, object_bits=10,
-               kf=["C18-rm-under-iterator", "C17-skiplist-header-notify"],
+               kf=["C18-rm-under-iterator", "C18-skiplist-rm-with-zombie"],
                bounds={"impl": IMPLS[impl], "history_length": nops, "first_op_index": first, "scenarios_in_obligation": nalpha ** (nops - 1), "keys": 3, "iterators": 2},
+               units=UNITS, stubs=["random() constant (level 0)"]))
+    # same alphabet, starting from a preloaded state (2 entries, iterator 0 on its first entry): 4 + nops operations deep
+    for impl in range(3):
+        for first in range(nalpha):
+            obs.append(Obl("%s-A18-pre-N%d-first%02d" % (IMPLS[impl], nops, first), "c17_map.c",
+               defs=["IMPL=%d" % impl, "FIRST=%d" % first, "NOPS=%d" % nops, "NKEYS=3", "ALPHABET=18", "SKIP_LEVELS=1", "PRELOAD"] +
+                    (["CONCRETE_VALUES"] if impl == 2 else []),
+               unwind=9, n_entries=nalpha ** (nops - 1),
+               unwindset={"run_scenario": 5, "new_child_node": 33, "trie_node_split": 33, "trie_node_next": 33, "trie_node_release": 33},
+               timeout=120, mem_gb=6, object_bits=10,
+               kf=["C18-rm-under-iterator", "C18-skiplist-rm-with-zombie"],
+               bounds={"impl": IMPLS[impl], "prefix": "put k0, put k1, iter_create 0, iter_next 0", "history_length_after_prefix": nops, "first_op_index": first,
+                       "scenarios_in_obligation": nalpha ** (nops - 1), "keys": 3, "iterators": 2},
                units=UNITS, stubs=["random() constant (level 0)"]))
     return obs
